@@ -700,6 +700,7 @@ pub fn gen_typed<T: HItem>(
             (0, false)
         }
     };
+    let empty_slots = name.starts_with("sumadd:");
     let mut vals: Vec<String> = Vec::new();
     if ctor == "new" {
         let v = if sp.sums { pick_sum_value(rng, &sp, share, share) } else { pick_value(rng, &sp, mode) };
@@ -710,6 +711,12 @@ pub fn gen_typed<T: HItem>(
         vals.push(val_token(v, md0, lazy));
     } else {
         for i in 0..n {
+            // `SumAdd::default()` (sum 0, length 0) as an element: an empty slot (wave 4)
+            if empty_slots && rng.chance(1, 8) {
+                bud.set(i, 0, 0);
+                vals.push("_".into());
+                continue;
+            }
             let v = if sp.sums {
                 let cap = budget - bud.abs_sum();
                 pick_sum_value(rng, &sp, cap, share)
@@ -724,8 +731,11 @@ pub fn gen_typed<T: HItem>(
     if vals.iter().any(|v| v.contains('@')) {
         st.bump("constructor_values_with_own_pending_modifier");
     }
+    if vals.iter().any(|v| v == "_") {
+        st.bump("constructor_values_with_empty_slot");
+    }
     let obs_of = |tok: &str| -> T::O {
-        T::parse_val(tok).unwrap_or_else(|| panic!("generated value does not parse: {} {}", name, tok)).obs()
+        parse_elem::<T>(tok).unwrap_or_else(|| panic!("generated value does not parse: {} {}", name, tok)).obs()
     };
     let mut shadow: Vec<T::O> =
         if ctor == "new" { vec![obs_of(&vals[0]); n] } else { vals.iter().map(|v| obs_of(v)).collect() };
@@ -752,8 +762,10 @@ pub fn gen_typed<T: HItem>(
                     pick_value(rng, &sp, mode)
                 };
                 let (md0, lazy) = own_md(rng);
+                let empty = empty_slots && rng.chance(1, 8);
+                let (v, md0) = if empty { (0, 0) } else { (v, md0) };
                 bud.set(i, v, md0);
-                let tok = val_token(v, md0, lazy);
+                let tok = if empty { "_".to_string() } else { val_token(v, md0, lazy) };
                 shadow[i] = obs_of(&tok);
                 tags.set(i, 0, 0, n - 1);
                 st.bump("op_set");
